@@ -89,6 +89,20 @@ def ref_insert(m: list, idx: int, dtm, maxidx: int) -> list:
     return nm
 
 
+def public_view(f):
+    """The PUBLIC view (FaultLog.faultlog) as {log index: timestamp}; reading it is what a user does (and what fills any cache)."""
+    return {k: e.timestamp for k, e in f.faultlog.items()}
+
+
+def view_is_state(ctx, f, hist) -> None:
+    """The public view is exactly what the object's own log state says, after every operation (no stale copy)."""
+    pv, st = public_view(f), dict(f._map)
+    if pv != st:
+        diff = {k: (pv.get(k), st.get(k)) for k in sorted(set(pv) | set(st)) if pv.get(k) != st.get(k)}
+        ctx.violation("public-view-differs-from-the-log-state", "FaultLog.faultlog (the public view) is not the log the object holds: a stale or partial copy is shown",
+                      {"history": [list(h) if isinstance(h, tuple) else h for h in list(hist)[-12:]], "slots(view,state)": {f"{k:02X}": list(d) for k, d in list(diff.items())[:6]}}, "history")
+
+
 def coq_map(m) -> str:
     return "[" + "; ".join(f"({k},{v})" for k, v in m) + "]"
 
@@ -184,6 +198,8 @@ def run(ctx: Ctx) -> None:
             except Exception as err:  # noqa: BLE001
                 ctx.violation("view-raises", "reading the fault-log view raised " + type(err).__name__,
                               {"history": evs, "error": repr(err)}, "history")
+            else:
+                view_is_state(ctx, f2, evs)
         mp = [(k, unts(v)) for k, v in f2._map.items()]
         lg = [unts(k) for k in f2._log]
         reported = {e[2] for e in evs if e[0] == "E"}
@@ -262,7 +278,7 @@ def deep_log(ctx: Ctx, entry_msg, null_msg, rounds: int) -> None:
     rng = ctx.rng
 
     def view_of(f):
-        return {k: unts(v) for k, v in f._map.items()}
+        return {k: unts(v) for k, v in public_view(f).items()}        # what a user reads, not the internal map
 
     def new_entry(log, nxt):
         log.insert(0, nxt)
@@ -291,6 +307,8 @@ def deep_log(ctx: Ctx, entry_msg, null_msg, rounds: int) -> None:
             _ = (f.faultlog, f.latest_event, f.latest_fault, f.active_faults)
         except Exception as err:  # noqa: BLE001
             ctx.violation("view-raises", "reading the fault-log view raised " + type(err).__name__, {"history": list(hist), "error": repr(err)}, "history")
+        else:
+            view_is_state(ctx, f, hist)
 
     # (D2) clean histories around the full depth: complete belief, every announcement delivered
     for n0 in (DEPTH - 2, DEPTH - 1, DEPTH, DEPTH + 3):
